@@ -287,6 +287,8 @@ func ociFacts(lf *leanFile) {
 		callList("content/oci/storage.go", "Storage", "ingest"),
 		callList("content/oci/storage.go", "Storage", "Delete"),
 	}, ",\n   ")+"]")
+	// the in-memory content store: check, verified read, commit
+	lf.def("casCalls", "List (String × List String)", "["+callList("internal/cas/memory.go", "Memory", "Push")+"]")
 }
 
 // retryFacts: is rand.Int64N in ExponentialBackoff called under an `if`?
